@@ -3,10 +3,10 @@
 -- value is shorter than 2^62 bytes, which is where Go's wrap-around is the identity).
 -- Heavy case analyses are proved once about a normal form (Proofs/SnapStr.lean, built by lake); here the
 -- freshly translated function is shown to BE that normal form.
--- functions: ds/str String.SetBit, ds/str String.BitCountByBit, ds/str String.BitCount, ds/str String.getBit, ds/str String.GetBit, ds/str String.Strlen, ds/str String.GetRange, ds/str String.Append, ds/str String.Set, ds/str String.Get, ds/str String.GetSet
+-- functions: ds/str String.SetRange, ds/str String.SetBit, ds/str String.BitCountByBit, ds/str String.BitCount, ds/str String.getBit, ds/str String.GetBit, ds/str String.Strlen, ds/str String.GetRange, ds/str String.Append, ds/str String.Set, ds/str String.Get, ds/str String.GetSet
 -- properties: C01
 -- import: NodisVerif.Model.DsStr
--- import: NodisVerif.Proofs.SnapStrSetBit
+-- import: NodisVerif.Proofs.SnapStrSetRange
 namespace NodisVerif.TranslatedTie
 open NodisVerif NodisVerif.Translated NodisVerif.GoLib
 
@@ -73,6 +73,22 @@ theorem str_SetBit_eq_model (v : Bytes) (o : Int) (b : Bool) (hv : v.length < 2 
   rw [str_SetBit_is_normal_form]; exact StrNF.SetBit_eq_model str.String_.mk v o b hv ho
 
 example : str.String_.SetBit ⟨[0xA5]⟩ 9 true = .ok (⟨[0xA5, 0x40]⟩, 0) := by decide +kernel
+
+theorem str_SetRange_is_normal_form (v : Bytes) (o : Int) (d : Bytes) :
+    str.String_.SetRange ⟨v⟩ o d = StrNF.SetRange str.String_.mk v o d := by
+  first | rfl | simp [str.String_.SetRange, StrNF.SetRange]
+
+/-- `SetRange(offset, data)` against the model's `setRange`: the same value and length wherever the model yields one; where the
+    model says `none`, either the growth exceeds 1 GiB (the model does not follow the allocator there) or the translated
+    function panics with slice bounds out of range — which happens only after an int64 overflow of offset+len(data) -/
+theorem str_SetRange_eq_model (v : Bytes) (o : Int) (d : Bytes) (hv : v.length < 2 ^ 58) (hd : d.length < 2 ^ 58) (ho : inInt64 o) :
+    match DsStr.setRange (some v) o d with
+    | some (s', n) => str.String_.SetRange ⟨v⟩ o d = .ok (⟨s'.getD []⟩, n)
+    | none => wrap64 (o + d.length) - v.length > 1073741824 ∨ str.String_.SetRange ⟨v⟩ o d = .error .slice := by
+  rw [str_SetRange_is_normal_form]; exact StrNF.SetRange_eq_model str.String_.mk v o d hv hd ho
+
+example : str.String_.SetRange ⟨[1, 2]⟩ 3 [9] = .ok (⟨[1, 2, 0, 9]⟩, 4) := by decide +kernel
+example : str.String_.SetRange ⟨[1, 2]⟩ 9223372036854775807 [9] = .error .slice := by decide +kernel
 
 theorem str_Append_eq_model (v d : Bytes) (h : ¬ (v = [] ∧ d = [])) :
     str.String_.Append ⟨v⟩ d = .ok (⟨v ++ d⟩, (DsStr.append (some v) d).2) := by
